@@ -125,7 +125,13 @@ func (e *Engine) Generate(prop, tier string, seed uint64, run int) *sim.Plan {
 	if r.Chance(0.25) {
 		nhub = 2
 	}
-	faults := run%2 == 1 // fault-free and fault-injecting configurations are separate
+	// fault-free and fault-injecting configurations are separate; runs of a property
+	// served by several engines are dealt round-robin, so count this engine's runs only
+	ne := len(sim.PropEngines[prop])
+	if ne == 0 {
+		ne = 1
+	}
+	faults := (run/ne)%2 == 1
 	var levels []string
 	for i := 0; i < nrep; i++ {
 		if r.Chance(0.5) {
